@@ -222,10 +222,18 @@ def check_one(p, route):
         warnings.simplefilter("ignore")
         log = []
         try:
+            if p.get("keys2"):
+                # history: a first solve, then more answer keys are registered on the same Solver, then the solve that is checked
+                s.solve(backend=backend_for(route, []))
+                for k in p["keys2"]:
+                    s.add_answer_key(vs[k])
+                for v in vs:
+                    v.sol = None
             ret = s.solve(backend=backend_for(route, log))
         except Exception as e:
             return {"kind": "exception", "detail": "%s: %s" % (type(e).__name__, str(e)[:200])}, 0, 0.0
     LAST_LOG[:] = log
+    allkeys = list(p["keys"]) + list(p.get("keys2") or [])
     env = ref.Env(prefix="")
     R = reference_formula(p, vs, env)
     q = z3.Solver()
@@ -241,7 +249,7 @@ def check_one(p, route):
         return {"kind": "verdict", "detail": "solve()=%r but the constraints are %s" % (ret, v)}, nq, time.time() - t0
     if ret:
         m = q.model()
-        for k in p["keys"]:
+        for k in allkeys:
             var = vs[k]
             zv = env.z(var)
             val = var.sol
@@ -324,15 +332,22 @@ def replay(payload, verbose=False):
     with warnings.catch_warnings():
         warnings.simplefilter("ignore")
         try:
+            if p.get("keys2"):
+                s.solve(backend=backend_for(route))
+                for k in p["keys2"]:
+                    s.add_answer_key(vs[k])
+                for v in vs:
+                    v.sol = None
             ret = s.solve(backend=be)
         except Exception as e:
             if verbose:
                 print("raised", type(e).__name__, e)
             return True
-    got = [vs[k].sol for k in p["keys"]]
-    want = [facts[k] for k in p["keys"]] if sat else None
+    allkeys = list(p["keys"]) + list(p.get("keys2") or [])
+    got = [vs[k].sol for k in allkeys]
+    want = [facts[k] for k in allkeys] if sat else None
     if verbose:
-        print("route=%s solve()=%r keys=%r reported=%r exact(brute force)=%r" % (route, ret, p["keys"], got, want))
+        print("route=%s solve()=%r keys=%r reported=%r exact(brute force)=%r" % (route, ret, allkeys, got, want))
     if ret != sat:
         return True
     if sat and any(type(g) is not type(w) or g != w for g, w in zip(got, want)):
@@ -358,6 +373,12 @@ def programs(tier, rng):
     for mask in range(1, 512, 7 if tier == "quick" else 2):
         S = [(1000 + sq[i][0], -300 - sq[i][1]) for i in range(9) if mask >> i & 1]
         out.append({"kind": "set", "vars": [("i", 1000, 1002), ("i", -302, -300)], "set": S, "keys": [[0, 1], [0], [1]][mask % 3]})
+    # two-phase sessions: keys registered after a first solve
+    for mask in range(1, 256, 5 if tier == "quick" else 1):
+        S = [cube[i] for i in range(8) if mask >> i & 1]
+        k1 = [[0], [1], [], [0, 1]][mask % 4]
+        k2 = [k for k in (0, 1, 2) if k not in k1][: 1 + mask % 2]
+        out.append({"kind": "set", "vars": [("b",)] * 3, "set": S, "keys": k1, "keys2": k2})
     mix = list(itertools.product((False, True), (-1, 0, 1)))
     for mask in range(0, 64):
         S = [mix[i] for i in range(6) if mask >> i & 1]
@@ -418,7 +439,7 @@ def run(tier, only=None):
                      "cspuz.backend.sugar_like.SugarLikeBackend.solve / solve_irrefutably / add_constraint (all five subclasses)"]
     rep.bounds = {"programs": "every solution set over 3 booleans (256), over {0,1,2}^2 (512%s), over bool x {-1,0,1} (64); %d random "
                   "tree programs over 2 bools + 2 ints" % ("" if tier == "thorough" else ", every 3rd in quick", 400 if tier == "quick" else 4000),
-                  "answer keys": "all subsets (thorough) / a rotating subset + all (quick)",
+                  "answer keys": "all subsets (thorough) / a rotating subset + all (quick); two-phase sessions (solve, add_answer_key, solve)",
                   "routes": ROUTES, "oracle orders": "z3's own, and 4 steered real-Z3 back ends (prefer hi / lo / minimal change / maximal change), "
                   "native deduction mode served by an exact text-protocol solver"}
     rep.outside = ["arbitrary model orders beyond the steered ones", "the real Sugar / csugar / cspuz_core binaries (not installable offline)"]
